@@ -96,9 +96,68 @@ def o_encode(case):
     return ["kind=" + kind, "net=" + code]
 
 
+_SHAPED = {}
+_B58 = "123456789ABCDEFGHJKLMNPQRSTUVWXYZabcdefghijkmnopqrstuvwxyz"
+
+
+def shaped_hash(version, style, seed):
+    """a 20-byte hash whose Base58Check address under `version` is written in a single letter case and contains exactly
+    one '1' (it looks like a Bech32 string), or None when the version's leading characters rule that out.  The leading
+    digits are chosen freely from the style's alphabet, the low two bytes of the hash are searched so that the remaining
+    digits and the checksum digits fit."""
+    key = (bytes(version), style, seed % 8)
+    if key in _SHAPED:
+        return _SHAPED[key]
+    letters = "abcdefghijkmnopqrstuvwxyz" if style == "lower" else "ABCDEFGHJKLMNPQRSTUVWXYZ"
+    allowed = "23456789" + letters
+    probe = refenc.b58check_encode(bytes(version) + b"\x80" * 20)
+    L = len(probe)
+    found = None
+
+    def ok(a):
+        ls = [ch for ch in a if ch.isalpha()]
+        return ls and all(ch in letters for ch in ls) and a.count("1") == 1
+    # the first character(s) follow from the version: addresses of this version can only have the shape if those fit
+    lead = {refenc.b58check_encode(bytes(version) + bytes([b]) * 20)[0] for b in (0, 0x40, 0x80, 0xc0, 0xff)}
+    if any(ch.isalpha() and ch not in letters for ch in lead) or len(lead) > 1:
+        _SHAPED[key] = None
+        return None
+    for attempt in range(6):
+        head = probe[:2 if len(version) > 1 else 1]
+        body = "".join(allowed[(seed * 131 + attempt * 31 + j * 17 + (j * j) % 7) % len(allowed)] for j in range(L - len(head) - 9))
+        if "1" not in head:
+            body = body[:3] + "1" + body[4:]
+        tmpl = head + body + "2" * 9
+        raw = refenc.b58decode(tmpl)
+        if raw is None or len(raw) != len(version) + 24 or raw[:len(version)] != bytes(version):
+            continue
+        h0 = raw[len(version):len(version) + 20]
+        for ctr in range(65536):
+            h = h0[:18] + ctr.to_bytes(2, "big")
+            if ok(refenc.b58check_encode(bytes(version) + h)):
+                found = h
+                break
+        if found:
+            break
+    _SHAPED[key] = found
+    return found
+
+
 def s_encode():
-    return st.builds(lambda nk, hp: {"net": nk[0], "kind": nk[1], "h": mk_hash(refaddr.HASHLEN[nk[1]], *hp).hex()},
-                     st.sampled_from(NET_KIND), hash_parts())
+    plain = st.builds(lambda nk, hp: {"net": nk[0], "kind": nk[1], "h": mk_hash(refaddr.HASHLEN[nk[1]], *hp).hex()},
+                      st.sampled_from(NET_KIND), hash_parts())
+
+    def shaped(nk, style, seed, fb):
+        code, kind = nk
+        ver = PFX[code]["address" if kind == "p2pkh" else "p2sh"]
+        h = shaped_hash(ver, style, seed) if ver is not None and code not in GRS else None
+        return {"net": code, "kind": kind, "h": h.hex()} if h is not None else fb
+    b58_kinds = [nk for nk in NET_KIND if nk[1] in ("p2pkh", "p2sh")]
+    main = [nk for nk in b58_kinds if nk[0] in ("BTC", "XTN", "LTC", "DOGE", "DASH", "BCH")]
+    looks_like_bech32 = st.builds(shaped, st.one_of(st.sampled_from(main), st.sampled_from(b58_kinds)), st.sampled_from(["lower", "upper"]),
+                                  st.integers(0, 7), plain)
+    from gen.common import weighted
+    return weighted((15, plain), (1, looks_like_bech32))
 
 
 BOUNDARY_FILL = [0x00, 0xff, 0x11, 0x99, 0x10, 0x01]
